@@ -3,7 +3,7 @@ from . import helpers_rules as H
 from . import shared as S
 
 META = {
-    'claim_added': 'Also decided: each helper has its rejecting exits (positive phrasing); the recogniser judges every item (no second pass exists for require_attribute); Node.is_scalar/get_value clauses of C14 that the helpers delegate to.',
+    'claim_added': 'Also decided: each helper has its rejecting exits (positive phrasing); the recogniser judges every item (no second pass exists for require_attribute); Node.is_scalar/get_value clauses of C14 that the helpers delegate to. Round 6 (E14): caches on the code this property is about are invisible - no value that lives in a memo cell (dict / lazily filled attribute / lru_cache) is modified by the code it is handed to, the key of a cell contains every input its value depends on, no mutable parameter default is modified or handed out; given that, the program is analysed as if every lookup missed.',
     'level': 'other',
     'technique': 'static: decision atoms per exit (raise / return) extracted from dominating guards and compared with the table '
                  'written from the docstrings; typestate of get_value(); write-effect closure through Recognizer.recognize',
